@@ -80,8 +80,14 @@ class GpioWorld(World):
     def run(self, config, ops, props, stats, hist):
         from amaranth_soc import gpio
         dw, pc, st, aw = config["dw"], config["pc"], config["st"], config["aw"]
-        dut = hw.construct(gpio.Peripheral, pin_count=pc, addr_width=aw, data_width=dw,
-                           input_stages=st)
+        def p2(x):
+            return 1 << (max(1, x) - 1).bit_length()
+        s1, s2 = p2((2 * pc + dw - 1) // dw), p2((pc + dw - 1) // dw)
+        need = max(1, ((s1 + 2 * s2 + s1 - 1) // s1 * s1 + s1 - 1).bit_length())
+        ctor = (lambda *a_, **k_: hw.must_accept("C16", f"gpio.Peripheral(pin_count={pc}, addr_width="
+                                                 f"{aw}, data_width={dw}, input_stages={st})",
+                                                 *a_, **k_)) if aw >= need else hw.construct
+        dut = ctor(gpio.Peripheral, pin_count=pc, addr_width=aw, data_width=dw, input_stages=st)
         regs = {}
         for info in dut.bus.memory_map.all_resources():
             regs[str(info.path[-1][-1])] = (info.start, info.end)
